@@ -29,7 +29,8 @@ ENVELOPES = ("JSONRPCRequest", "JSONRPCNotification", "JSONRPCResponse", "JSONRP
 # observation helpers
 # ---------------------------------------------------------------------------------------------
 def s_(cps):
-    return "".join(map(chr, cps))
+    """code points (or the compact {"srep": [unit, n]} form of a long repetitive text) -> str"""
+    return J.key_str(cps)
 
 
 def idval(t):
@@ -108,9 +109,9 @@ def observe(emitted, raised=None):
 # ---------------------------------------------------------------------------------------------
 # running coroutines that write to a memory stream
 # ---------------------------------------------------------------------------------------------
-def run_async(fn):
+def run_async(fn, tie="events", at=()):
     """run `await fn(read_stream, write_stream)` under the virtual-time loop (timeouts cost
-    nothing); returns (objects written, exception name or None)"""
+    nothing); `at` = [(tick, callable)] scripted events; returns (objects written, exception name or None)"""
     import anyio
 
     from . import vloop
@@ -118,8 +119,13 @@ def run_async(fn):
     box = {"w": [], "exc": None}
 
     async def main():
+        import asyncio
+
         in_send, in_recv = anyio.create_memory_object_stream(math.inf)
         out_send, out_recv = anyio.create_memory_object_stream(math.inf)
+        loop = asyncio.get_running_loop()
+        for tick, f in at:
+            loop.at(tick, f)
         try:
             await fn(in_recv, out_send)
         except BaseException as ex:  # noqa: BLE001
@@ -132,7 +138,7 @@ def run_async(fn):
             except Exception:  # noqa: BLE001
                 break
 
-    vloop.run(main)
+    vloop.run(main, tie=tie)
     return box["w"], box["exc"]
 
 
@@ -296,9 +302,48 @@ def discover():
     for mn, mf in sorted(vars(BatchProcessor).items()):
         if inspect.isfunction(mf) and mn.startswith("create_"):
             names.append(f"batching.BatchProcessor.{mn}")
+    m = _msg_mod()
+    for attr in ("to_specific_type", "from_specific_type"):
+        if hasattr(getattr(m, "JSONRPCMessage", None), attr):
+            names.append(f"json_rpc_message.JSONRPCMessage.{attr}")
+    if hasattr(m, "JSONRPCMessageWrapper"):
+        names.append("json_rpc_message.JSONRPCMessageWrapper")
     names += [n for n, _, _ in literal_sites()]
+    # scenarios on shared objects (not emitters of their own: sequences of the emitters above)
+    names += ["seq:shared-params", "seq:handler-reuse", "seq:batch-reuse"]
     names += ["transport:stdio-writer", "transport:http-post", "transport:sse-post"]
     return names
+
+
+ANCHORED = ["protocol/messages/json_rpc_message.py", "protocol/messages/send_message.py", "protocol/messages/notifications.py",
+            "protocol/messages/message_method.py", "server/protocol_handler.py", "server/server.py", "protocol/features/batching.py",
+            "protocol/fast_json.py", "transports/stdio/stdio_client.py", "transports/http/transport.py", "transports/sse/transport.py",
+            "protocol/types/errors.py"]
+
+
+def harvest_constants():
+    """string and integer constants of the anchored modules (magic values to feed back as inputs)"""
+    strs, ints = set(), set()
+    root = core.REPO / "src" / "chuk_mcp"
+    for rel in ANCHORED:
+        try:
+            tree = ast.parse((root / rel).read_text())
+        except (OSError, SyntaxError):
+            continue
+        doc = {id(n.body[0].value) for n in ast.walk(tree)
+               if isinstance(n, (ast.Module, ast.ClassDef, ast.FunctionDef, ast.AsyncFunctionDef)) and n.body
+               and isinstance(n.body[0], ast.Expr) and isinstance(n.body[0].value, ast.Constant)}
+        for n in ast.walk(tree):
+            if isinstance(n, ast.Constant) and id(n) not in doc:
+                if isinstance(n.value, str) and 0 < len(n.value) <= 48 and "\n" not in n.value:
+                    strs.add(n.value)
+                elif type(n.value) is int and abs(n.value) < 2 ** 63:
+                    ints.add(n.value)
+    extra = set()
+    for v in list(strs)[:]:
+        if v.isidentifier() or "/" in v:
+            extra |= {v.upper(), v.capitalize(), v + " ", " " + v, v + "s"}
+    return sorted(strs), sorted(extra - strs), sorted(ints)
 
 
 def registered_methods():
@@ -378,11 +423,40 @@ def d_legacy_create_error_response(a):
     return [_msg_mod().JSONRPCMessage.create_error_response(idval(a.get("id")), a["code"], s_(a["message"]), _obj(a.get("data")))]
 
 
+def d_to_specific_type(a):
+    """JSONRPCMessage(...).to_specific_type(): the legacy message converted to its envelope class"""
+    src = {"request": d_legacy_create_request, "notification": d_legacy_create_notification,
+           "response": d_legacy_create_response, "error": d_legacy_create_error_response}[a.get("of", "request")](a)[0]
+    return [src.to_specific_type()]
+
+
+def d_from_specific_type(a):
+    src = {"request": d_create_request, "notification": d_create_notification,
+           "response": d_create_response, "error": d_create_error_response}[a.get("of", "request")](a)[0]
+    return [_msg_mod().JSONRPCMessage.from_specific_type(src)]
+
+
+def d_wrapper(a):
+    """JSONRPCMessageWrapper around a message: its own model_dump / model_dump_json are the wire forms"""
+    src = {"request": d_create_request, "notification": d_create_notification,
+           "response": d_create_response, "error": d_create_error_response}[a.get("of", "request")](a)[0]
+    return [_msg_mod().JSONRPCMessageWrapper(src)]
+
+
 def d_send_message(a):
     from chuk_mcp.protocol.messages.send_message import send_message
 
     async def cb(progress, total, message):
         return None
+
+    from chuk_mcp.protocol.messages.send_message import CancellationToken
+
+    token = CancellationToken() if a.get("cancel") else None
+    at = []
+    if a.get("cancel") == "pre":
+        token.cancel()
+    elif a.get("cancel"):
+        at.append((int(a["cancel"]), token.cancel))  # tick at which the caller cancels
 
     async def go(r, w):
         kw = {}
@@ -390,16 +464,19 @@ def d_send_message(a):
             kw["message_id"] = s_(a["mid"])
         if a.get("progress"):
             kw["progress_callback"] = cb
-        await send_message(r, w, method_of(a), copy.deepcopy(_obj(a.get("params"))), timeout=0.01, **kw)
+        if token is not None:
+            kw["cancellation_token"] = token
+        timeout = 0 if a.get("timeout0") else (4.0 if a.get("cancel") else 0.01)
+        await send_message(r, w, method_of(a), copy.deepcopy(_obj(a.get("params"))), timeout=timeout, **kw)
 
-    return run_async(go)
+    return run_async(go, tie=a.get("tie", "events"), at=at)
 
 
 # argument registry for the typed helpers: parameter name -> value built from the case
 def _registry(a):
     txt = s_(a.get("text") or [120])
     return {
-        "timeout": 0.01,
+        "timeout": 0 if a.get("timeout0") else 0.01,
         "name": txt, "uri": "file:///" + txt, "cursor": txt if a.get("opt") else None, "level": "debug",
         "arguments": _obj(a.get("payload")) if a.get("payload") is not None else {},
         "ref": {"type": "ref/prompt", "name": txt}, "argument": {"name": "arg", "value": txt},
@@ -446,6 +523,92 @@ class UnknownEmitter(Exception):
     pass
 
 
+def d_seq_shared_params(a):
+    """the SAME params dict handed to 2-3 consecutive emitters (create_request with progress tokens,
+    send_message with and without a progress callback, create_notification)"""
+    from chuk_mcp.protocol.messages.send_message import send_message
+
+    m = _msg_mod()
+    params = _obj(a.get("params"))
+    out = []
+    ids = [idval(i) for i in a["ids"]]
+
+    async def cb(progress, total, message):
+        return None
+
+    for step, idv in zip(a["steps"], ids * 3):
+        if step == "create_request":
+            out.append(m.create_request(method_of(a), params, id=idv))
+        elif step == "create_request+token":
+            out.append(m.create_request(method_of(a), params, id=idv, progress_token=idv))
+        elif step == "create_notification":
+            out.append(m.create_notification(method_of(a), params))
+        elif step in ("send_message", "send_message+progress"):
+            kw = {"progress_callback": cb} if step.endswith("progress") else {}
+
+            async def go(r, w, kw=kw, idv=idv):
+                await send_message(r, w, method_of(a), params, timeout=0.01, message_id=idv if isinstance(idv, str) and idv else None, **kw)
+
+            w, _ = run_async(go)
+            out += w
+    return out
+
+
+def d_seq_handler_reuse(a):
+    """one ProtocolHandler answering several requests in a row (ids of both JSON types side by side,
+    a second initialize, a request after a failed one)"""
+    h = _handler()
+    text = s_(a.get("text") or [120])
+
+    async def ok(message, session_id):
+        return h.create_response(message.id, _obj(a.get("payload"))), None
+
+    async def bad(message, session_id):
+        raise make_exc(a.get("exc"), text)
+
+    h.register_method("x/ok", ok)
+    h.register_method("x/bad", bad)
+    out, sid = [], None
+    for step, i in zip(a["steps"], a["ids"] * 4):
+        params = None
+        if step == "initialize":
+            params = {"o": [[J.cps("protocolVersion"), J.S(s_(a.get("version") or J.cps("2025-06-18")))], [J.cps("clientInfo"), {"o": [[J.cps("name"), J.S(text)]]}]]}
+        msg = _incoming({"id": i, "method": J.cps(step), "params": params})
+        r, exc = _run(lambda msg=msg, sid=sid: h.handle_message(msg, sid) if a.get("session") else h.handle_message(msg))
+        if r is not None:
+            if r[0] is not None:
+                out.append(r[0])
+            if r[1]:
+                sid = r[1]
+    return out
+
+
+def d_seq_batch_reuse(a):
+    """one BatchProcessor used for several batches, its protocol version changed in between"""
+    from chuk_mcp.protocol.features.batching import BatchProcessor
+
+    bp = BatchProcessor(s_(a.get("version") or J.cps("2025-03-26")))
+    text = s_(a.get("text") or [120])
+    out = []
+
+    def handler(item):
+        if isinstance(item, dict) and item.get("method") == "bad":
+            raise make_exc(a.get("exc"), text)
+        return None
+
+    for step in a["steps"]:
+        if step.startswith("version:"):
+            bp.update_protocol_version(step[8:])
+            continue
+        items = [{"jsonrpc": "2.0", "id": idval(i), "method": step} for i in a["ids"]]
+        r = bp.process_message_data(items, handler)
+        if isinstance(r, dict):
+            out.append(r)
+        elif isinstance(r, list):
+            out += [x for x in r if isinstance(x, dict)]
+    return out
+
+
 class AppError(Exception):
     """an application exception type (a BaseException subclass that is an Exception)"""
 
@@ -455,7 +618,7 @@ class AppError(Exception):
 
 
 EXC_KINDS = ["runtime", "value", "key-tuple", "unicode-decode", "object-arg", "bytes-arg", "set-arg", "no-args",
-             "app", "app-object", "os", "nested", "mixed-args", "exc-arg"]
+             "app", "app-object", "os", "nested", "mixed-args", "exc-arg", "bad-str", "empty-str"]
 
 
 def make_exc(kind, text):
@@ -497,6 +660,13 @@ def make_exc(kind, text):
         return ValueError(text, 1, 1.5, None, True, (1, "a"), [None])
     if kind == "exc-arg":
         return RuntimeError(ValueError(text))
+    if kind == "bad-str":
+        class Unprintable(Exception):
+            def __str__(self):
+                raise RuntimeError("no text")
+        return Unprintable(text)
+    if kind == "empty-str":
+        return ValueError("")
     raise ValueError(f"unknown exception kind {kind}")
 
 
@@ -515,6 +685,9 @@ def _incoming(a):
     d = {"jsonrpc": "2.0", "id": idval(a["id"]), "method": s_(a["method"])}
     if a.get("params") is not None:
         d["params"] = _obj(a["params"])
+    if a.get("extra"):  # valid but unusual: members in another order, an extra member
+        d = dict(reversed(list(d.items())))
+        d["x-extra"] = {"n": None}
     return parse_message(d)
 
 
@@ -825,7 +998,21 @@ DIRECT_INNERS = ["direct-request", "direct-notification", "direct-response", "di
                  "direct-legacy-notification", "direct-legacy-response", "direct-legacy-error", "validated-request",
                  "validated-legacy-response"]
 CREATED_INNERS = ["request", "notification", "response", "error", "legacy-request", "legacy-response", "legacy-error", "dict",
-                  "parsed-request", "parsed-notification", "parsed-response", "parsed-error"]
+                  "parsed-request", "parsed-notification", "parsed-response", "parsed-error", "dict-extra", "converted", "wrapped"]
+# forms only the stdio writer accepts (HTTP / SSE log an error and send nothing)
+STDIO_ONLY_INNERS = ["raw-str", "dump-only", "list"]
+
+
+class _DumpOnly:
+    """an object exposing only model_dump (the stdio writer's two-pass path)"""
+
+    def __init__(self, m):
+        self._m = m
+        for k in ("id", "method"):
+            setattr(self, k, getattr(m, k, None))
+
+    def model_dump(self, **kw):
+        return self._m.model_dump(**kw)
 
 
 def _inner(a):
@@ -865,6 +1052,25 @@ def _inner(a):
         return d_legacy_create_error_response(a)
     if kind == "dict":
         return [d_create_request(a)[0].model_dump(exclude_none=True)]
+    if kind == "dict-extra":  # members in an unusual order plus an extra member: sent as it is
+        d = d_create_request(a)[0].model_dump(exclude_none=True)
+        d = dict(reversed(list(d.items())))
+        d["x-extra"] = {"n": None, "l": [0, False, ""]}
+        return [d]
+    if kind == "converted":
+        return d_to_specific_type(a)
+    if kind == "wrapped":
+        return d_wrapper(a)
+    if kind == "raw-str":
+        from chuk_mcp.protocol import fast_json
+        return [fast_json.dumps(d_create_request(a)[0].model_dump(exclude_none=True))]
+    if kind == "dump-only":
+        return [_DumpOnly(d_create_request(a)[0])]
+    if kind == "list":
+        return [[d_create_request(a)[0].model_dump(exclude_none=True), d_create_notification(a)[0].model_dump(exclude_none=True)]]
+    if kind == "burst":  # n messages in a row through one transport object (stream capacity is 100)
+        base = d_create_request(a)[0].model_dump(exclude_none=True)
+        return [dict(base, id=i) if i % 2 else m.create_request(method_of(a), params, id=i) for i in range(int(a.get("n", 101)))]
     if kind.startswith("parsed-"):
         src = {"parsed-request": d_create_request, "parsed-notification": d_create_notification,
                "parsed-response": d_create_response, "parsed-error": d_create_error_response}[kind](a)[0]
@@ -925,10 +1131,15 @@ def d_stdio_writer(a):
         c._notify_send, c.notifications = anyio.create_memory_object_stream(10)
         c._streams_initialized = True
         c.process = Proc()
-        for msg in msgs:
-            await c._outgoing_send.send(msg)
-        await c._outgoing_send.aclose()
-        await c._stdin_writer()
+
+        async def produce():
+            for msg in msgs:
+                await c._outgoing_send.send(msg)
+            await c._outgoing_send.aclose()
+
+        async with anyio.create_task_group() as tg:
+            tg.start_soon(produce)
+            await c._stdin_writer()
 
     from . import vloop
     exc = None
@@ -941,7 +1152,8 @@ def d_stdio_writer(a):
     out = []
     for ln in lines:
         if ln:
-            out.append(fast_json.loads(ln.decode("utf-8")))
+            v = fast_json.loads(ln.decode("utf-8"))
+            out += v if isinstance(v, list) else [v]
     return out, exc, {"bytes_end_nl": data.endswith(b"\n") if data else None, "lines": len([ln for ln in lines if ln])}
 
 
@@ -1050,6 +1262,12 @@ def drivers():
         "json_rpc_message.JSONRPCMessage.create_response": ("ctor", d_legacy_create_response),
         "json_rpc_message.JSONRPCMessage.create_error_response": ("ctor", d_legacy_create_error_response),
         "send_message.send_message": ("send_message", d_send_message),
+        "json_rpc_message.JSONRPCMessage.to_specific_type": ("convert", d_to_specific_type),
+        "json_rpc_message.JSONRPCMessage.from_specific_type": ("convert", d_from_specific_type),
+        "json_rpc_message.JSONRPCMessageWrapper": ("convert", d_wrapper),
+        "seq:shared-params": ("seq", d_seq_shared_params),
+        "seq:handler-reuse": ("seq", d_seq_handler_reuse),
+        "seq:batch-reuse": ("seq", d_seq_batch_reuse),
         "server.ProtocolHandler.handle_message": ("server", d_handle_message),
         "server.ProtocolHandler.create_response": ("ctor", d_handler_create_response),
         "server.ProtocolHandler.create_error_response": ("ctor", d_handler_create_error_response),
